@@ -542,6 +542,13 @@ def replay(case, ctx):
 
 
 def _replay(case, ctx):
+    if case.get("warnings_as_errors"):
+        import warnings
+
+        with warnings.catch_warnings():
+            for cat in (DeprecationWarning, PendingDeprecationWarning):
+                warnings.filterwarnings("error", category=cat, module=r"jsonpath(\.|$)")
+            return _replay({k: v for k, v in case.items() if k != "warnings_as_errors"}, ctx)
     kind = case.get("kind")
     if "doc" in case and "$integer-of-bits" in json.dumps(case["doc"], default=repr) and "docs" in case:
         case = {k: v for k, v in case.items() if k != "doc"}   # the one document could not be written literally: use the symbolic list
